@@ -524,6 +524,11 @@ class HDF5DataFrame(DataFrame):
         :param ddf: optional- the destination data frame
         :returns: a dataframe contains all the fields re-indexed, self if ddf is not set
         """
+        if isinstance(index_to_apply, fld.Field):
+            # read the index once, up front: it may be a column of this dataframe, which is re-indexed
+            # in place together with the others
+            index_to_apply = index_to_apply.data[:]
+
         if ddf is not None:
             if not isinstance(ddf, DataFrame):
                 raise TypeError("The destination object must be an instance of DataFrame.")
